@@ -30,7 +30,8 @@ Init == S = [q |-> <<>>, unsent |-> <<>>, filled |-> <<>>, rcpttos |-> <<>>, ind
 
 Min(a, b) == IF a <= b THEN a ELSE b
 Classes(u) == IF u = "data" THEN {3, 4, 5}
-              ELSE IF u \in {"rcpt", "mail", "hello"} THEN {2, 4, 5}
+              ELSE IF u \in {"rcpt", "mail"} THEN {2, 3, 4, 5}      \* any class; only 2xx accepts a recipient
+              ELSE IF u = "hello" THEN {2, 4, 5}
               ELSE {2}                                   \* rset, quit, noop
 NReplies(u, acc) == IF u = "content" /\ Lmtp THEN acc ELSE 1
 
